@@ -274,6 +274,181 @@ def append_invalidates(src):
     return _simplify(hit)
 
 
+# ----------------------------------------------------------------------------- append: where it can be left by an exception
+
+ATOMS_APPEND3 = dict(ATOMS_APPEND)
+ATOMS_APPEND3.update({
+    "isinstance(self._rows, list)": "rowsIsList",
+    "type(self._rows) is list": "rowsIsList",
+})
+
+
+def _effect(st):
+    """What a simple statement does to the cursor / the row store: 'drop', 'materialize', 'store', None; raises when it
+    does something to them this analysis has no word for."""
+    text = ast.unparse(st)
+    if isinstance(st, ast.Assign) and any(ast.unparse(t) == "self._cursor" for t in st.targets):
+        if len(st.targets) == 1 and isinstance(st.value, ast.Constant) and st.value.value is None:
+            return "drop"
+        raise Untranslatable("cursor re-created in append")
+    if isinstance(st, ast.Expr) and isinstance(st.value, ast.Call):
+        f = ast.unparse(st.value.func)
+        if f == "self.materialize" and not st.value.args and not st.value.keywords:
+            return "materialize"
+        if f in ("self._rows.append", "self._rows.extend", "self._rows.insert"):
+            return "store"
+    if isinstance(st, ast.Assign) and any(ast.unparse(t) == "self._rows" for t in st.targets):
+        v = ast.unparse(st.value).replace(" ", "")
+        if v in ("list(self._rows)", "list(self._rowsor[])"):
+            return "materialize"
+        raise Untranslatable("row store re-bound in append: " + text[:40])
+    if isinstance(st, ast.AugAssign) and ast.unparse(st.target) == "self._rows":
+        return "store"
+    for n in ast.walk(st):
+        if isinstance(n, ast.Attribute) and ast.unparse(n) == "self._cursor":
+            raise Untranslatable("cursor used in " + text[:40])
+        if isinstance(n, ast.Call) and ast.unparse(n.func).startswith("self._rows."):
+            raise Untranslatable("row store changed in " + text[:40])
+    return None
+
+
+def _has_call(n):
+    """Can this statement / test be left by an exception?  One that calls something (or is a `raise`): attribute
+    reads, `is`-tests and arithmetic on the frame's own counters are taken not to raise."""
+    return any(isinstance(x, (ast.Call, ast.Raise)) for x in ast.walk(n))
+
+
+def append_points(src):
+    """`DataFrame.append`, statement by statement: every place it can be left from — by an exception (any statement or
+    test that calls something) or by completing — with what has happened to the frame by then.
+
+    Returns (points, final): `points` is a list of dicts {first, last (source lines), text, dropped, materialized,
+    stored}; the three are Lean Bool terms over `rowsIsList schemaIsRelation nbytesTracked` (the state when `append`
+    is entered) saying whether `self._cursor = None`, `self.materialize()`, `self._rows.append(…)` have been executed
+    when the statement starts; `final` the same three for an append that completes.
+
+    The path through `append` must be decided by those three atoms wherever an effect or a `return` depends on it; a test
+    over anything else may only guard statements without effect (they are still points).  Anything else raises."""
+    fn = find_function(src.tree, "append", "DataFrame")
+    points = []
+    exits = []
+
+    def disj(a, b):
+        return b if a == "false" else (a if b == "false" else "(%s || %s)" % (a, b))
+
+    def point(node, st):
+        points.append({"first": node.lineno, "last": getattr(node, "end_lineno", node.lineno), "text": ast.unparse(node)[:60],
+                       "dropped": st["drop"], "materialized": st["materialize"], "stored": st["store"]})
+
+    def plain(stmts):
+        """statements under a test this analysis cannot decide: no effects, no way out but an exception"""
+        for s_ in stmts:
+            for n in ast.walk(s_):
+                if isinstance(n, (ast.Return, ast.Break, ast.Continue, ast.Yield, ast.YieldFrom)):
+                    raise Untranslatable("control flow under a test over the record")
+            if isinstance(s_, (ast.Expr, ast.Assign, ast.AugAssign, ast.AnnAssign, ast.Raise, ast.Pass, ast.Assert)):
+                if not isinstance(s_, (ast.Raise, ast.Pass, ast.Assert)) and _effect(s_) is not None:
+                    raise Untranslatable("effect under a test over the record")
+            else:
+                for sub in ast.iter_child_nodes(s_):
+                    if isinstance(sub, ast.stmt):
+                        plain([sub])
+                if _mentions(s_, ("self._cursor", "self._rows")) and not isinstance(s_, ast.If):
+                    raise Untranslatable("compound statement around the cursor: " + type(s_).__name__)
+
+    def block(stmts, cur, st):
+        """-> (cur, st) after the block; cur == "false" when no path falls through"""
+        for s_ in stmts:
+            if isinstance(s_, ast.Expr) and isinstance(s_.value, ast.Constant):
+                continue
+            if isinstance(s_, ast.Return):
+                if s_.value is not None and _has_call(s_.value):
+                    point(s_, st)
+                exits.append((cur, dict(st)))
+                return "false", st
+            if isinstance(s_, ast.Raise):
+                point(s_, st)
+                return "false", st
+            if isinstance(s_, ast.If):
+                if _has_call(s_.test):
+                    point(s_.test, st)
+                try:
+                    t = _bool(s_.test, ATOMS_APPEND3)
+                except Untranslatable:
+                    plain(s_.body)
+                    plain(s_.orelse)
+                    inner = dict(st)
+                    for b in (s_.body, s_.orelse):
+                        pts(b, inner)
+                    continue
+                c1, s1 = block(s_.body, "(%s && %s)" % (cur, t), dict(st))
+                c2, s2 = block(s_.orelse, "(%s && !%s)" % (cur, t), dict(st))
+                st = {k: disj(s1[k], s2[k]) if s1[k] != s2[k] else s1[k] for k in st}
+                if not (c1 == "(%s && %s)" % (cur, t) and c2 == "(%s && !%s)" % (cur, t)):  # a branch left the method
+                    cur = disj(c1, c2)
+                continue
+            if isinstance(s_, (ast.Expr, ast.Assign, ast.AugAssign, ast.AnnAssign, ast.Pass, ast.Assert, ast.Import, ast.ImportFrom)):
+                eff = None if isinstance(s_, (ast.Pass, ast.Assert, ast.Import, ast.ImportFrom)) else _effect(s_)
+                if _has_call(s_):
+                    point(s_, st)
+                if eff is not None:
+                    key = {"drop": "drop", "materialize": "materialize", "store": "store"}[eff]
+                    st = dict(st)
+                    st[key] = disj(st[key], cur)
+                continue
+            # for / while / try / with: fine as long as they do nothing to the cursor, the store or the flow
+            plain([s_])
+            point(s_, st)
+        return cur, st
+
+    def pts(stmts, st):
+        for s_ in stmts:
+            if isinstance(s_, ast.If):
+                if _has_call(s_.test):
+                    point(s_.test, st)
+                pts(s_.body, st)
+                pts(s_.orelse, st)
+            elif _has_call(s_):
+                point(s_, st)
+
+    cur, st = block(fn.body, "true", {"drop": "false", "materialize": "false", "store": "false"})
+    if cur != "false":
+        exits.append((cur, st))
+    if not exits:
+        raise KeyError("append never completes")
+    final = {}
+    for k in ("drop", "materialize", "store"):
+        f = "false"
+        for c, s_ in exits:
+            f = disj(f, "(%s && %s)" % (c, s_[k]))
+        final[k] = _simplify(f)
+    points.sort(key=lambda p: (p["first"], p["last"]))
+    for p in points:
+        for k in ("dropped", "materialized", "stored"):
+            p[k] = _simplify(p[k])
+    return points, final
+
+
+def append_point_of_line(points, lineno):
+    """The index of the innermost point whose source lines contain `lineno` (None when there is none)."""
+    best = None
+    for i, p in enumerate(points):
+        if p["first"] <= lineno <= p["last"] and (best is None or p["last"] - p["first"] <= points[best]["last"] - points[best]["first"]):
+            best = i
+    return best
+
+
+# the table of the tree this framework was built against (written when the extraction degrades)
+PINNED_POINTS = [["false", "false", "false"]] * 2 + [["(!rowsIsList)", "(!rowsIsList)", "false"]] * 9
+PINNED_FINAL = ["(((!rowsIsList) || true))", "(!rowsIsList)", "true"]
+
+
+def append_points_lean(src):
+    points, final = append_points(src)
+    return [[[p["dropped"], p["materialized"], p["stored"]] for p in points], [final["drop"], final["materialize"], final["store"]],
+            [[p["first"], p["last"], p["text"]] for p in points]]
+
+
 def _simplify(f):
     """Cosmetic: fold the constant parts of the formula (it stays a plain Bool term either way)."""
     prev = None
@@ -286,6 +461,7 @@ def _simplify(f):
         import re
 
         f = re.sub(r"\((\w+)\)", r"\1", f)
+        f = re.sub(r"\(\(([^()]*)\)\)", r"(\1)", f)
     return f
 
 
@@ -411,6 +587,7 @@ def generate(o):
     g3 = o.item("cursor.fetchall.guard", lambda: refuses(src, "fetchall"), PINNED["refuses"])
     il = o.item("cursor.init.live", lambda: init_cursor_live(src), PINNED["initCursorLive"])
     ai = o.item("cursor.append.invalidates", lambda: append_invalidates(src), PINNED["appendInvalidates"])
+    ap = o.item("cursor.append.points", lambda: append_points_lean(src), [PINNED_POINTS, PINNED_FINAL, None])
     lim, inc = o.item("cursor.rowsiter.limit", lambda: list(rows_iterator(conv)), [PINNED["limitReached"], PINNED["processedAfter"]])
     sk = o.item("cursor.rowsiter.skips_empty", lambda: skips_empty(conv), PINNED["skipsEmptyTables"])
     t = HEADER + "set_option linter.unusedVariables false\nnamespace Gen.Cursor\n"
@@ -426,6 +603,20 @@ def generate(o):
     t += "def initCursorLive (rowsNonEmpty : Bool) : Bool := %s\n" % il
     t += "/-- `append`: the condition under which a completing append executes `self._cursor = None` -/\n"
     t += "def appendInvalidates (schemaIsRelation nbytesTracked : Bool) : Bool := %s\n" % ai
+    args3 = "fun rowsIsList schemaIsRelation nbytesTracked => "
+    t += "/-- `append`, statement by statement: every statement (and every test) it can be left from by an exception, in source\n"
+    t += "order, with what has been executed when that statement starts — `self._cursor = None` (`dropped`), `self.materialize()`\n"
+    t += "(`materialized`), `self._rows.append(…)` (`stored`) — as functions of the state in which `append` was entered -/\n"
+    t += "structure AppendPoint where\n  dropped : Bool → Bool → Bool → Bool\n  materialized : Bool → Bool → Bool → Bool\n  stored : Bool → Bool → Bool → Bool\n"
+    t += "def appendPoints : List AppendPoint := [\n"
+    for i, (d, m, st) in enumerate(ap[0]):
+        t += "  ⟨%s%s, %s%s, %s%s⟩%s%s\n" % (args3, d, args3, m, args3, st, "," if i + 1 < len(ap[0]) else "",
+                                           ("  -- %d: %s" % (i, ap[2][i][2].replace("\n", " ")) if ap[2] else ""))
+    t += "  ]\n"
+    t += "/-- …and the same for an append that completes -/\n"
+    t += "def appendDropsCursor (rowsIsList schemaIsRelation nbytesTracked : Bool) : Bool := %s\n" % ap[1][0]
+    t += "def appendMaterializes (rowsIsList schemaIsRelation nbytesTracked : Bool) : Bool := %s\n" % ap[1][1]
+    t += "def appendStores (rowsIsList schemaIsRelation nbytesTracked : Bool) : Bool := %s\n" % ap[1][2]
     t += "/-- converters.py `_RowsIterator.__next__`: the max_size guard, the counter update, the loop kind -/\n"
     t += "def limitReached (processed maxSize : Int) : Prop := %s\n" % lim
     t += "instance (p m : Int) : Decidable (limitReached p m) := by unfold limitReached; infer_instance\n"
